@@ -537,6 +537,11 @@ def _apply(case, order):
 def _expected(case):
   exp = {}
   for b in case['bindings']:
+    # a macro whose name is dotted has no textual definition in the language (`a.b = v` is a
+    # binding of parameter b of a; scopes cannot contain dots): like a value without a literal
+    # form it has to be omitted, not emitted
+    if b['target'] == '%' and '.' in b['param']:
+      continue
     if _literal(b['value']):
       key = ((b['param'], '<macro>', 'value') if b['target'] == '%' else
              (b['scope'], b['target'], b['param']))
